@@ -92,6 +92,26 @@ def run(args) -> int:
             extra, _ = c01.rand_arg(rng, L['modal'], L['quantified']), None
             jobs.append(dict(base, role='monotone', group=gid, extra=(extra[0][0] if extra[0] else extra[1])))
             jobs.append(dict(base, role='rename', group=gid, rename=rand_renaming(rng)))
+        # reflexivity with many copies of one premise (lookups that only matter on crowded branches)
+        A0, A1 = ['A', 0, 0], ['A', 1, 0]
+        for lit in (A0, ['U', 'Negation', A0]):
+            gid = len(jobs)
+            base = dict(logic=n, premises=[lit] * 8 + [A1], conclusion=A1, configs=CFG, timeout_ms=2500)
+            jobs.append(dict(base, role='base', group=gid))
+            jobs.append(dict(base, role='reflexive', group=gid, concl_from_prems=3))
+            jobs.append(dict(base, role='monotone', group=gid, extra=lit))
+        if 'SelfIdentityClosure' in L['closure']:
+            # monotonicity around identity: m = n, Fm |- ~~Fn stays valid whatever else mentions m, wherever it is added
+            m_, n_ = ['c', 0, 0], ['c', 1, 0]
+            Imn, Fm = ['P', -1, 0, [m_, n_]], ['P', 0, 0, [m_]]
+            NNFn = ['U', 'Negation', ['U', 'Negation', ['P', 0, 0, [n_]]]]
+            for prems in ([Imn, Fm], [Fm, Imn]):
+                gid = len(jobs)
+                base = dict(logic=n, premises=prems, conclusion=NNFn, configs=CFG, timeout_ms=2500)
+                jobs.append(dict(base, role='base', group=gid))
+                for extra in (['P', 1, 0, [m_]], ['P', 2, 0, [m_, m_]], ['P', 1, 0, [n_]], ['P', -1, 0, [n_, ['c', 2, 0]]]):
+                    jobs.append(dict(base, role='monotone', group=gid, extra=extra))
+                    jobs.append(dict(base, role='monotone', group=gid, extra=extra, extra_front=True))
         if L['quantified']:
             Fb = ['P', 0, 0, [['c', 1, 0]]]; Fx = ['P', 0, 0, [['v', 0, 0]]]; Ga = ['P', 1, 0, [['c', 0, 0]]]
             fixed = [([['U', 'Negation', Fb], ['Q', 'Existential', 0, Fx]], Ga),
